@@ -722,7 +722,7 @@ func (cd *cmdDispatcher) cmdInfo(filter map[string]struct{}) (output respValue) 
 
 func (cd *cmdDispatcher) cmdList(aclcat, pattern string) (output respValue) {
 	a := []any{}
-	pat := []rune(pattern)
+	pat := []byte(pattern)
 
 	for name := range cd.active {
 		info := cd.infoTable.table[name]
@@ -739,7 +739,7 @@ func (cd *cmdDispatcher) cmdList(aclcat, pattern string) (output respValue) {
 			}
 		}
 		if pattern != "" {
-			if !redisGlob(pat, []rune(name)) {
+			if !redisGlob(pat, []byte(name)) {
 				continue
 			}
 		}
